@@ -378,7 +378,7 @@ def strat_single():
         't': st.sampled_from([1, 2, 3, -1]),
         'entry': st.sampled_from(['solve_t', 'solve']),
         'opts': st.fixed_dictionaries({
-            'min_iter': st.integers(0, 3), 'max_iter': st.sampled_from([3, 8, 30, 60, 100]),
+            'min_iter': st.integers(0, 3), 'max_iter': st.sampled_from([0, 1, 2, 3, 8, 30, 60, 100]),
             'tol': st.sampled_from([1e-6, 0.5, 2.0 ** -10, 1e-10, 1e-3]), 'failures': st.sampled_from(['raise', 'ignore']),
         }),
     })
